@@ -379,7 +379,9 @@ def _fit_dt(dt, units, x, lay):
     """widen an integer dtype until every converted cell value fits it (no wrap-around in pint/NumPy)"""
     if not dt:
         return 0
-    vmax = max(abs(v) for v in _cells(x, lay, dt)[0])
+    # at least 1: the integral factor itself must fit the dtype (int16 0 day -> s raises a bare OverflowError
+    # in NumPy on the unchanged tree: "Python integer 86400 out of bounds for int16")
+    vmax = max([1] + [abs(v) for v in _cells(x, lay, dt)[0]])
     us = [u for u in units if u is not None]
     bound = max([vmax] + [vmax * FAC[a] / FAC[b] for a in us for b in us if DIMS[a] == DIMS[b]])
     while dt > 1 and 4 * bound >= 2 ** _BITS[dt]:
